@@ -1330,7 +1330,7 @@ fn c02m(args: &Args) -> ! {
 fn c10cli(args: &Args) -> ! {
     use std::convert::TryFrom;
     use varlink_parser::{Format, FormatColored, IDL};
-    let mut rep = Report::new("C10", "the command-line tool: `varlink --color {on,off} format [-c W] FILE` for 5 definitions (docs, nested structs/enums, long names, CRLF input) x widths {default, 0, 1, 30, 60, 80, 120, 1000}: stdout must be exactly the library's top-level rendering at that width (plain or colored) plus a newline, and must parse back to the same definition; non-trivial = distinct (definition, width, colour)");
+    let mut rep = Report::new("C10", "the command-line tool: `varlink --color {on,off} format [-c W] FILE` for 8 definitions (docs, nested structs/enums, long names, CRLF input, three files of ~14 KiB with multi-byte characters at every alignment relative to 4 KiB / 8 KiB) x widths {default, 0, 1, 30, 60, 80, 120, 1000}: stdout must be exactly the library's top-level rendering at that width (plain or colored) plus a newline, and must parse back to the same definition; non-trivial = distinct (definition, width, colour)");
     if !Path::new(VARLINK_CLI).exists() {
         machinery("varlink CLI binary missing (./check --setup builds it)");
     }
@@ -1343,6 +1343,16 @@ fn c10cli(args: &Args) -> ! {
         format!("interface x-y.z9\nerror {} ()\ntype S ()\nmethod M{}() -> ()", "E".repeat(30), "m".repeat(40)),
         std::fs::read_to_string("/repo/varlink-certification/src/org.varlink.certification.varlink").unwrap_or_else(|_| "interface a.c\nmethod X()->()\n".into()),
     ];
+    // files larger than any read chunk, with multi-byte characters (in documentation, and U+2028 as a line end) at every
+    // alignment relative to the 4 KiB and 8 KiB offsets
+    let mut texts = texts;
+    for shift in 0..3usize {
+        let mut t = format!("# {}big\ninterface org.example.big\n", "x".repeat(shift));
+        for i in 0..40 {
+            t += &format!("\n# member {} \u{20ac}{} \u{e9}\u{1F600} end\u{2028}method M{}(a: int, note: ?string) -> (r: []string)\n", i, "\u{20ac}".repeat(97), i);
+        }
+        texts.push(t);
+    }
     let replay = args.replay_case();
     let mut idx = 0u64;
     for (ti, t) in texts.iter().enumerate() {
